@@ -83,12 +83,14 @@ CHECKS["C01"] = dict(
          "indicator - ends in exactly the store (or exception) of one calculate() over the whole stream (canonical causal semantics, "
          "proved by induction over the loop for all streams, lengths and chunkings), and on a collapsing timeframe the re-collapse "
          "of calculated buckets followed by new raw candles, then calculate(), gives the batch result on the resampled whole stream "
-         "- also with Heikin-Ashi conversion between collapse and indicator. "
+         "- also with Heikin-Ashi conversion between collapse and indicator. First composite: for a parent with a pure reading "
+         "function and one leaf helper (ATR over its true-range series, all obligations discharged) every chunked run ends in the "
+         "result of one successful calculate() over the whole stream. "
          "The two obligations are discharged for HLA, TR, OBV, EMA, SMA, RMA, WMA, VWMA, ROC, Counter, HL, Donchian, AROON and every Amorph-wrapped analysis "
          "function (all periods >= 1, all inputs not reading the own slot). " + ENGINE_TIE +
          "Falsifier: incremental vs batch deep equality over all 27 kinds + Amorph wrappers, base/S/T/H/D timeframes, fill, HA.",
     note="Proved for leaf indicators on the base and on collapsing timeframes, with or without Heikin-Ashi (fill and lifespan are not in the composition); for the "
-         "other kinds and composite trees the property is decided by correspondence + falsifier. Axioms: none.",
+         "other composite kinds (managed helper series, several or nested helpers) the property is decided by correspondence + falsifier. Axioms: none.",
     technique="Coq proof (canonical-semantics induction over the calculate loop; per-indicator causality lemmas) + vm_compute correspondence + falsifier",
     design="5/C01")
 CHECKS["C02"] = dict(
